@@ -46,8 +46,17 @@ def convert_value(value):
     if isinstance(value, bool):
         return AnyValue(bool_value=value)
     if isinstance(value, str):
+        try:
+            value.encode('utf-8')
+        except UnicodeEncodeError:
+            # python strings need not be valid UTF-8 (e.g. a file name or an environment variable decoded with
+            # surrogateescape), protobuf strings do: escape what cannot be encoded rather than fail the message
+            value = value.encode('utf-8', 'backslashreplace').decode('utf-8')
         return AnyValue(string_value=value)
     if isinstance(value, int):
+        if not -2 ** 63 <= value < 2 ** 63:
+            # does not fit the integer type on the wire
+            return AnyValue(string_value=str(value))
         return AnyValue(int_value=value)
     if isinstance(value, float):
         return AnyValue(double_value=value)
@@ -63,11 +72,12 @@ def convert_value(value):
 
 
 def __value_as_dict(value):
-    return KeyValueList(values=[KeyValue(key=k, value=convert_value(v)) for k, v in value.items()])
+    return KeyValueList(values=[KeyValue(key=k, value=convert_value(v) or AnyValue()) for k, v in value.items()])
 
 
 def __value_as_list(value):
-    return ArrayValue(values=[convert_value(val) for val in value])
+    # an element without a value (None is a valid element of an attribute sequence) is sent as an empty value
+    return ArrayValue(values=[convert_value(val) or AnyValue() for val in value])
 
 
 def convert_resource(resource):
